@@ -78,7 +78,7 @@ Definition C15_known (c : C15_case) : N :=
       if known_default (c_pub_part cfg) (c_sub_part cfg) then 4%N
       else if known_two_wildcards (c_pub_part cfg) (c_sub_part cfg) then 5%N
       else if known_plus (c_pub_part cfg) (c_sub_part cfg) then 3%N
-      else if known_newline (c_pub_part cfg) (c_sub_part cfg) then 6%N
+      (* class 6 (newline) was fixed by d70d0d9; the number is not reused *)
       else 0%N
     else 0%N   (* classes 1 (liveliness) and 2 (presentation) were fixed by f03d4da / 908a0e8;
                   the numbers are not reused *)
